@@ -319,5 +319,10 @@ func Bases() []Prog {
 		{Path: "sub/dir/c.thrift", Structs: []Struct{t("C")}, Services: []Service{{Name: "SC", Methods: []string{"mc"}}}},
 		{Path: "d.thrift", Structs: []Struct{t("D")}, Services: []Service{{Name: "SD", Methods: []string{"md"}}}},
 	}}
-	return []Prog{b1, b2, b3}
+	// two independent files sharing one base name in different directories
+	b4 := Prog{Files: []File{
+		{Path: "users/api.thrift", Structs: []Struct{t("U1")}, Services: []Service{{Name: "SU", Methods: []string{"mu"}}}},
+		{Path: "orders/api.thrift", Structs: []Struct{t("O1")}, Services: []Service{{Name: "SO", Methods: []string{"mo"}}}},
+	}}
+	return []Prog{b1, b2, b3, b4}
 }
